@@ -96,7 +96,7 @@ fn check_cross_only(prop: &'static str, tier: Tier) -> CheckOutcome {
             "distinct_nontrivial": states,
             "exhaustive": true,
             "cross_alphabet_pass": cross,
-            "rule": "breadth-first over the command histories of every sequential alphabet (C01 C02 C05 C06 C07 C08 C11 C14 C15, quick depths) on the real decode->handle->encode path; this property's clauses only (no panic, no decode error on a valid request, every command returns - the 30 s watchdog)",
+            "rule": "breadth-first over the command histories of every sequential alphabet (C01 C02 C05 C06 C07 C08 C11 C14 C15 and C16's long repetitions, quick depths) on the real decode->handle->encode path; this property's clauses only (no panic, no decode error on a valid request, every command returns - the 30 s watchdog)",
         }),
         assumptions: vec!["bounded depth and alphabets as listed".into()],
         violations,
@@ -165,6 +165,7 @@ fn check_seq(prop: &'static str, tier: Tier) -> CheckOutcome {
     let mut socket_validated = 0u64;
     let mut crosscheck: Vec<Value> = vec![];
     for cfg in &cfgs {
+        let mut extra_found: Vec<seq::Found> = vec![];
         let tree_depth = if tier == Tier::Quick { 2 } else { 3 };
         let rep = if prop == "C19" { pair::explore_pair(cfg, nthreads()) } else { seq::explore_seq(cfg, nthreads(), tree_depth) };
         // binding: spanning-tree histories replayed byte-for-byte through a real TCP server
@@ -201,6 +202,35 @@ fn check_seq(prop: &'static str, tier: Tier) -> CheckOutcome {
                     cfg.name, common, sa.difference(&sb).collect::<Vec<_>>(), sb.difference(&sa).collect::<Vec<_>>()
                 ));
             }
+        }
+        // history-exhaustive pass: state matching merges histories whose stores look alike - and with
+        // them any state a change keeps *outside* the store (a claim set, a cache, a per-connection
+        // or per-thread remnant of a refused command).  Every history up to a smaller depth is
+        // therefore also executed without state matching.
+        let mut hist_pass = Value::Null;
+        if prop != "C19" && !cfg.no_dedup {
+            let budget: f64 = if tier == Tier::Quick { 1.5e6 } else { 4.0e7 };
+            let budget = if cfg.evict != model::Evict::Off { budget / 8.0 } else { budget };
+            let n = cfg.alphabet.len().max(2) as f64;
+            let dh = ((budget.ln() / n.ln()).floor() as usize).max(2).min(cfg.depth.max(1));
+            let mut hc = cfg.clone();
+            hc.no_dedup = true;
+            hc.depth = dh;
+            hc.roots = vec![];
+            let hr = seq::explore_seq(&hc, nthreads(), 0);
+            if let Some(e) = &hr.machinery_error {
+                mach = Some(format!("{} (history-exhaustive pass): {}", cfg.name, e));
+            }
+            if hr.capped.is_some() {
+                exhaustive = false;
+            }
+            transitions += hr.transitions;
+            executions += hr.executions;
+            hist_pass = json!({
+                "depth": dh, "depth_completed": hr.depth_reached, "histories": hr.states, "transitions": hr.transitions,
+                "capped": hr.capped, "wall_s": hr.wall_s, "histories_per_depth": hr.level_states,
+            });
+            extra_found.extend(hr.found);
         }
         socket_validated += bound_n;
         if let Some(e) = bound_err {
@@ -248,9 +278,11 @@ fn check_seq(prop: &'static str, tier: Tier) -> CheckOutcome {
             "owned_clause_hits": rep.owned_clause_hits,
             "foreign_discrepancies": rep.foreign,
             "normalised_fingerprints": cfg.normalise,
+            "start_states_besides_the_empty_store": cfg.roots.len(),
+            "history_exhaustive_pass_without_state_matching": hist_pass,
             "wall_s": rep.wall_s,
         }));
-        for f in rep.found {
+        for f in rep.found.into_iter().chain(extra_found) {
             if violations.iter().any(|v| v.signature == f.signature) {
                 continue;
             }
@@ -271,7 +303,7 @@ fn check_seq(prop: &'static str, tier: Tier) -> CheckOutcome {
     }
     // cross-alphabet pass: the alphabets of the other sequential properties, this property's clauses
     let mut cross: Vec<Value> = vec![];
-    if prop != "C19" {
+    if prop != "C19" && prop != "C16" {
         let (c, st, tr, ex) = cross_pass(prop, &mut violations, &mut mach);
         cross = c;
         states += st;
@@ -288,7 +320,7 @@ fn check_seq(prop: &'static str, tier: Tier) -> CheckOutcome {
         "samples": samples,
         "exhaustive": exhaustive,
         "distinct_outcomes": distinct_outcomes,
-        "rule": "breadth-first over command histories; every transition executes the real decode->handle->encode path with the reference model in lock-step; a state is (implementation dump, model bookkeeping) canonicalised (ages, CAS offsets)",
+        "rule": "breadth-first over command histories; every transition executes the real decode->handle->encode path with the reference model in lock-step; a state is (implementation dump, model bookkeeping) canonicalised (ages, CAS offsets); per configuration a second pass executes every history up to a smaller depth without state matching (state kept outside the store cannot hide behind equal dumps), and configurations with start states walk a long history first and explore from its end",
         "configs": cov_cfgs,
     });
     CheckOutcome {
@@ -417,11 +449,11 @@ fn replay(path: &str) -> i32 {
                 }
             }
         }
-        Some(e @ ("c09" | "c12" | "c13" | "c17" | "c17-queued" | "c17-offset" | "c18")) => {
+        Some(e @ ("c09" | "c12" | "c12-reset" | "c13" | "c17" | "c17-queued" | "c17-offset" | "c18")) => {
             sut::set_quiet(true);
             let r = match e {
                 "c09" => check_c09::replay(&v),
-                "c12" => check_c12::replay(&v),
+                "c12" | "c12-reset" => check_c12::replay(&v),
                 "c13" => check_c13::replay(&v),
                 "c17" | "c17-queued" | "c17-offset" => check_c17::replay(&v),
                 _ => check_c18::replay(&v),
@@ -454,11 +486,111 @@ fn replay(path: &str) -> i32 {
     }
 }
 
+/// Runs the check (or replay) in a child process.  A server that takes the whole process down -- a
+/// panic inside a guard that aborts on unwinding, a panic while panicking -- cannot be caught in
+/// process; the parent sees the death by signal, reads the child's last breadcrumb and, if the last
+/// panic was raised in the server's own code, reports it as what it is: client input crashed the
+/// server (C10).  Any other death of the child is a machinery error, never a verdict.
+fn supervise(args: &[String]) -> i32 {
+    use std::os::unix::process::{CommandExt, ExitStatusExt};
+    let exe = match std::env::current_exe() {
+        Ok(e) => e,
+        Err(e) => {
+            eprintln!("MACHINERY-ERROR cannot find own executable: {}", e);
+            return 2;
+        }
+    };
+    let dir = report::verif_dir().join("mc").join("target");
+    let _ = std::fs::create_dir_all(&dir);
+    let crumb = dir.join(format!("crumb.{}", std::process::id()));
+    let _ = std::fs::remove_file(&crumb);
+    let mut cmd = std::process::Command::new(exe);
+    cmd.args(&args[1..]).env("MC_CHILD", "1").env("MC_CRUMB", &crumb);
+    unsafe {
+        cmd.pre_exec(|| {
+            libc::prctl(libc::PR_SET_PDEATHSIG, libc::SIGKILL);
+            Ok(())
+        });
+    }
+    let status = match cmd.status() {
+        Ok(s) => s,
+        Err(e) => {
+            eprintln!("MACHINERY-ERROR cannot start the check process: {}", e);
+            return 2;
+        }
+    };
+    let crumb_text = std::fs::read_to_string(&crumb).ok();
+    let _ = std::fs::remove_file(&crumb);
+    if let Some(code) = status.code() {
+        return code;
+    }
+    let sig = status.signal().unwrap_or(0);
+    // which property was being decided
+    let (prop, tier) = if args[1] == "check" {
+        let tier = if args.iter().any(|a| a == "thorough") || std::env::var("VERIF_TIER").ok().as_deref() == Some("thorough") { "thorough" } else { "quick" };
+        (args.get(2).cloned().unwrap_or_default(), tier.to_string())
+    } else {
+        let v: Value = args.get(2).and_then(|p| std::fs::read_to_string(p).ok()).and_then(|s| serde_json::from_str(&s).ok()).unwrap_or(Value::Null);
+        (v["property"].as_str().unwrap_or("").to_string(), v["tier"].as_str().unwrap_or("quick").to_string())
+    };
+    let c: Value = crumb_text.as_deref().and_then(|t| serde_json::from_str(t).ok()).unwrap_or(Value::Null);
+    let panic_text = c["panic"].as_str().unwrap_or("").to_string();
+    let in_server_code = panic_text.rsplit(" @ ").next().map(|loc| loc.contains("memcrs/src")).unwrap_or(false);
+    if prop != "C10" || !in_server_code || !matches!(sig, libc::SIGABRT | libc::SIGSEGV | libc::SIGILL | libc::SIGBUS) {
+        eprintln!(
+            "MACHINERY-ERROR property={} the check process died by signal {} (last panic: {}; doing: {}); a server crash is decided by C10's check",
+            prop,
+            sig,
+            if panic_text.is_empty() { "none recorded" } else { &panic_text },
+            c["doing"].as_str().unwrap_or("?")
+        );
+        return 2;
+    }
+    // a replayable artefact: the sequential engine's history if the abort happened there
+    let seq = c["seq"].as_str().unwrap_or("");
+    let parts: Vec<&str> = seq.splitn(3, '|').collect();
+    let (replay, wherein) = if parts.len() == 3 && !parts[2].is_empty() {
+        let hist: Vec<Value> = parts[2]
+            .split(',')
+            .filter_map(|e| {
+                let (cmd, ch) = e.split_once(':')?;
+                let choices: Vec<u64> = ch.split('.').filter(|x| !x.is_empty()).filter_map(|x| x.parse().ok()).collect();
+                Some(json!({"cmd": cmd.parse::<u64>().ok()?, "choices": choices}))
+            })
+            .collect();
+        (json!({"engine": "seq", "tier": tier, "config": parts[1], "history": hist}), format!("configuration {} after commands {}", parts[1], parts[2]))
+    } else {
+        (json!({"engine": "process-abort", "doing": c["doing"]}), format!("while {}", c["doing"].as_str().unwrap_or("?")))
+    };
+    let loc = panic_text.rsplit(" @ ").next().unwrap_or("").to_string();
+    let out = CheckOutcome {
+        property: "C10".into(),
+        tier,
+        level: "model_checking",
+        coverage: json!({
+            "states": 0, "transitions": 0, "traces_validated_against_impl": 0, "exhaustive": false,
+            "rule": "the exploration ended when the process executing the server code was killed by a signal; nothing beyond the reported execution is covered by this run",
+        }),
+        assumptions: vec![],
+        violations: vec![Violation {
+            signature: format!("process-abort|{}", loc),
+            what: format!("the process executing the request died by signal {} after a panic in the server's code ({}), {}", sig, panic_text, wherein),
+            replay,
+        }],
+        wall_s: 0.0,
+        machinery_error: None,
+    };
+    report::finish(out)
+}
+
 fn main() {
     let args: Vec<String> = std::env::args().collect();
     if args.len() < 2 {
         eprintln!("usage: mc check <Cxx> [--tier quick|thorough] | mc replay <file>");
         std::process::exit(2);
+    }
+    if matches!(args[1].as_str(), "check" | "replay") && std::env::var("MC_CHILD").is_err() {
+        std::process::exit(supervise(&args));
     }
     sut::init_hooks();
     let code = match args[1].as_str() {
@@ -483,7 +615,23 @@ fn main() {
                     let b = check_sched::check("C01", tier, props_sched::c01_families(tier), &["linearizable", "no-panic", "deadlock", "livelock"], nthreads());
                     let t = a.tier.clone();
                     let c = opaque_differential("C01", tier);
-                    report::merge("C01", &t, vec![("sequential_histories", a), ("concurrent_other_key_all_schedules", b), ("opaque_independence_differential", c)])
+                    let t1 = Instant::now();
+                    let (n, viol, err) = check_c12::backpressure_gets(tier, &[wire::op::GET, wire::op::GETK, wire::op::GETQ]);
+                    let d = CheckOutcome {
+                        property: "C01".into(),
+                        tier: t.clone(),
+                        level: "model_checking",
+                        coverage: json!({
+                            "states": n, "transitions": n, "traces_validated_against_impl": n, "evaluations": n, "distinct_nontrivial": n,
+                            "exhaustive": true,
+                            "rule": "large stored values read back through a full socket over real TCP: opcodes get/getk/getq x item sizes x pipelined counts; the client reads only after the server blocked on the full socket; every retrieval must return exactly the stored value bytes and flags",
+                        }),
+                        assumptions: vec![],
+                        violations: viol.into_iter().map(|(s, w)| Violation { signature: s, what: w, replay: json!({"engine": "c12-backpressure"}) }).collect(),
+                        wall_s: t1.elapsed().as_secs_f64(),
+                        machinery_error: err,
+                    };
+                    report::merge("C01", &t, vec![("sequential_histories", a), ("concurrent_other_key_all_schedules", b), ("opaque_independence_differential", c), ("large_values_through_a_full_socket", d)])
                 }
                 "C02" => check_seq("C02", tier),
                 "C03" => check_sched::check("C03", tier, props_sched::c03_families(tier), &["linearizable", "token-duplicated", "no-panic"], nthreads()),
@@ -494,7 +642,12 @@ fn main() {
                     let t = a.tier.clone();
                     report::merge("C05", &t, vec![("sequential_histories", a), ("expired_item_under_concurrent_collection_all_schedules", b)])
                 }
-                "C16" => check_sched::check("C16", tier, props_sched::c16_families(tier), &["deadlock", "livelock"], nthreads()),
+                "C16" => {
+                    let a = check_sched::check("C16", tier, props_sched::c16_families(tier), &["deadlock", "livelock"], nthreads());
+                    let b = check_seq("C16", tier);
+                    let t = a.tier.clone();
+                    report::merge("C16", &t, vec![("concurrent_programs_all_schedules", a), ("one_client_long_repetitions", b)])
+                }
                 "C14c" => check_sched::check("C14", tier, props_sched::c14_families(tier), &["over-limit", "over-limit-after-race", "over-limit-after-quiet-race", "deadlock", "livelock", "no-panic"], nthreads()),
                 "C06" => {
                     let a = check_seq("C06", tier);
